@@ -120,8 +120,28 @@ theorem check_total (t : Ty) (hw : wf t = true) (hh : size .hlsl t ≤ u32Max)
     (hm : size .metal t ≤ u32Max) : ∃ r, checkOne t = .ok r :=
   checkOne_total t hw hh hm
 
-/-- without vectors (scalars, enums, arrays and structs of them, to any depth) the two rule sets give
-    the same layout -/
+/-- **No panic on the grid, whatever the sizes** (since /repo 24ea36f; before, `check_total` was all there was:
+    sizes beyond `u32` hit `attempt to multiply with overflow` / `TryFromIntError`).  Every overflow site of
+    `get_type_layout` and `offsets_match` now returns `None` ("unknown size"); the one unchecked
+    `next_multiple_of` left, in `check_layout` itself, cannot overflow because a size is a multiple of its
+    alignment. -/
+theorem check_never_panics (ts : List Ty) (hw : ∀ t ∈ ts, wf t = true) (msg : String) :
+    checkAll ts ≠ .panic msg :=
+  checkFrom_noPanic ts 0 hw msg
+
+/-- non-vacuity: the inputs of the former panics (`float a[4294967295]`, `float a[4294967296]`, a struct that ends
+    beyond 4 GiB, an array of 2^32 empty structs) are in the grid and get "unknown size" -/
+example :
+    wf (.struct (Tys.ofList [.arr (.scalar .Float32) 4294967295])) = true ∧
+    checkAll [.struct (Tys.ofList [.arr (.scalar .Float32) 4294967295])] = .unknown 0 ∧
+    checkAll [.struct (Tys.ofList [.arr (.scalar .Float32) 4294967296])] = .unknown 0 ∧
+    checkAll [.struct (Tys.ofList [.arr (.scalar .Float32) 1073741823, .scalar .Float64])] = .unknown 0 ∧
+    checkAll [.struct (Tys.ofList [.arr (.struct .nil) 4294967296])] = .unknown 0 ∧
+    checkAll [.struct (Tys.ofList [.arr (.scalar .Float32) 1073741823])] = .ok := by
+  decide
+
+/-- without vectors and empty structs (scalars, enums, arrays and non-empty structs of them, to any depth) the two
+    rule sets give the same layout -/
 theorem vector_free_agree (t : Ty) (hv : vectorFree t = true) : Agree t :=
   ⟨(vectorFree_same t hv).2.1, (vectorFree_same t hv).2.2⟩
 
@@ -477,9 +497,29 @@ theorem reported_sizes_true_full (ts : List XTy) (i : Nat) (lh lm : Layout)
       · simp only [xhlslSB, xref, hw, if_true, (hs .hlsl).1, (hs .hlsl).2]
       · simp only [xmetal, xref, hw, if_true, (hs .metal).1, (hs .metal).2]
 
+/-- **No panic over the full universe**: also with `bool`, matrices and empty structs inside. -/
+theorem check_never_panics_full (ts : List XTy) (hw : ∀ t ∈ ts, xwf t = true) (msg : String) :
+    checkAll (ts.map erase) ≠ .panic msg := by
+  have key : ∀ (us : List XTy) (i : Nat), (∀ t ∈ us, xwf t = true) → checkFrom i (us.map erase) ≠ .panic msg := by
+    intro us
+    induction us with
+    | nil => intro i _; simp [checkFrom]
+    | cons u us ih =>
+      intro i hu h
+      simp only [List.map_cons] at h
+      unfold checkFrom at h
+      split at h
+      · cases h
+      · rename_i m' hc
+        cases h
+        exact checkOne_noPanic_full u (hu u (List.mem_cons_self ..)) _ hc
+      · cases h
+      · exact ih (i + 1) (fun t ht => hu t (List.mem_cons_of_mem _ ht)) h
+  exact key ts 0 hw
+
 /-- **What `get_type_layout` cannot handle is never silently accepted**: a type that mentions a `bool` or a
-    matrix anywhere is neither accepted nor reported with sizes (the verdict is "unknown size", or a panic of an
-    earlier member). -/
+    matrix anywhere is neither accepted nor reported with sizes; when both rule sets have a layout for it the
+    verdict is exactly "unknown size" (`no_layout_is_unknown`). -/
 theorem no_layout_no_verdict (t : XTy) (hp : plain t = false) :
     checkAll [erase t] ≠ .ok ∧ ∀ i lh lm, checkAll [erase t] ≠ .mismatch i lh lm := by
   have hn := checkOne_opaque t hp
@@ -494,6 +534,12 @@ theorem no_layout_no_verdict (t : XTy) (hp : plain t = false) :
       | succ k => simp at hu
     subst this
     exact hn _ hc
+
+/-- a type with a `bool` or a matrix in it for which both rule sets define a layout gets "unknown size" (since
+    /repo 24ea36f no earlier member can panic first) -/
+theorem no_layout_is_unknown (t : XTy) (hw : xwf t = true) (hp : plain t = false) :
+    checkAll [erase t] = .unknown 0 := by
+  simp only [checkAll, checkFrom, checkOne_opaque_unknown t hw hp]
 
 /-- **Completeness, partial.**  Types without `bool` and matrices that have the same total size and the same
     byte offset of every field under both rule sets (sizes ≤ u32::MAX) are all accepted.
